@@ -205,7 +205,7 @@ def run(F, R, tier):
         # the assignment is keyed by the load specifier's sub path
         # and happens under the version-load future
         g = guards_at(F, m)
-        R.ob("C05-c", "assignment happens when a version manifest was awaited", any(x.kind == "pat" and x.pol and "maybe_version_load_fut" in expr_text(x.scrut) for x in g),
+        R.ob("C05-c", "assignment happens when a version manifest was awaited", any(x.kind == "pat" and x.pol and tyc(F, x.scrut, "PendingJsrPackageVersionInfoLoadItem") for x in g),
              "manifest checksum assignment no longer under `if let Some(..) = maybe_version_load_fut`", where(m))
 
     # ---------------- C05-d ------------------------------------------------
@@ -214,7 +214,7 @@ def run(F, R, tier):
     for lit in reload_lits:
         g = guards_at(F, lit)
         in_arm = any(x.kind == "pat" and x.pol and "ChecksumIntegrity" in pat_text(x.pat) for x in g)
-        no_vi = any(x.kind == "cond" and x.pol and x.node.get("k") == "MethodCall" and x.node.get("fn") == "std::option::Option::is_none" and "maybe_version_info" in expr_text(x.node["recv"]) for x in g)
+        no_vi = any(x.kind == "cond" and x.pol and x.node.get("k") == "MethodCall" and x.node.get("fn") == "std::option::Option::is_none" and tyc(F, x.node["recv"], "graph::JsrPackageVersionInfoExt") for x in g)
         R.ob("C05-d", "Reload retry only in ChecksumIntegrity arm", in_arm, "cache-bypassing retry outside the `Err(LoadError::ChecksumIntegrity(_))` arm", where(lit))
         R.ob("C05-d", "Reload retry only for non-registry URLs", no_vi, "cache-bypassing retry not guarded by `maybe_version_info.is_none()`", where(lit))
     # any other Reload literal in graph.rs's loader paths?
@@ -271,8 +271,8 @@ def run(F, R, tier):
             R.violation("C05-e", "Redirect constructed in %s" % r["_top"]["path"], "redirect response constructed outside try_load::handle_redirect (no checksum / in-package checks there)", where(r))
             continue
         g = guards_at(F, r)
-        no_vi = any(x.kind == "cond" and not x.pol and x.node.get("fn") == "std::option::Option::is_some" and "maybe_version_info" in expr_text(x.node.get("recv", {})) for x in g)
-        no_ck = any(x.kind == "pat" and not x.pol and pat_text(x.pat).startswith("std::option::Option::Some(") and "checksum" in expr_text(x.scrut) for x in g)
+        no_vi = any(x.kind == "cond" and not x.pol and x.node.get("fn") == "std::option::Option::is_some" and tyc(F, x.node.get("recv"), "graph::JsrPackageVersionInfoExt") for x in g)
+        no_ck = any(x.kind == "pat" and not x.pol and pat_text(x.pat).startswith("std::option::Option::Some(") and tyc(F, x.scrut, "source::LoaderChecksum") for x in g)
         R.ob("C05-e", "redirect only when the URL is not inside a registry package", no_vi, "Redirect response not dominated by `!maybe_version_info.is_some()`", where(r))
         R.ob("C05-e", "redirect only when no checksum is known", no_ck, "Redirect response not dominated by the failure of `let Some(_) = maybe_checksum`: a checksummed URL could redirect", where(r))
         # the closure's checksum parameter is fed the real checksum at every call
@@ -287,7 +287,7 @@ def run(F, R, tier):
                 # which parameter is the checksum: the one matched by `let Some(_) = <param>`
                 ck_param = None
                 for x in g:
-                    if x.kind == "pat" and not x.pol and "checksum" in expr_text(x.scrut):
+                    if x.kind == "pat" and not x.pol and tyc(F, x.scrut, "source::LoaderChecksum"):
                         sc = peel(x.scrut)
                         for i, pp in enumerate(clo["body"]["params"]):
                             if pp.get("lid") == sc.get("lid"):
@@ -351,9 +351,9 @@ def run(F, R, tier):
              "set_remote_checksum not dominated by `!media_type.is_declaration()`", where(c))
         R.ob("C05-f", "only remote schemes", has(lambda x: x.kind == "pat" and x.pol and (x.scrut.get("fn") or "").endswith("Url::scheme") and set(re.findall(r"'(\w+)'", pat_text(x.pat))) == {"https", "http"}),
              "set_remote_checksum not dominated by matches!(scheme, \"https\" | \"http\")", where(c))
-        R.ob("C05-f", "not for registry package files", has(lambda x: x.kind == "cond" and x.pol and x.node.get("fn") == "std::option::Option::is_none" and "maybe_version_info" in expr_text(x.node["recv"])),
+        R.ob("C05-f", "not for registry package files", has(lambda x: x.kind == "cond" and x.pol and x.node.get("fn") == "std::option::Option::is_none" and tyc(F, x.node["recv"], "graph::JsrPackageVersionInfoExt")),
              "set_remote_checksum not dominated by `maybe_version_info.is_none()`", where(c))
-        R.ob("C05-f", "not for modules whose content is loaded later", has(lambda x: x.kind == "pat" and not x.pol and "pending_load" in expr_text(x.scrut)),
+        R.ob("C05-f", "not for modules whose content is loaded later", has(lambda x: x.kind == "pat" and not x.pol and any(tyc(F, y, "source::LoaderChecksum") and tyc(F, y, "analysis::ModuleInfo") for y in walk(x.scrut))),
              "set_remote_checksum reachable when pending_load is Some (bytes are a placeholder)", where(c))
         # argument shape: LoaderChecksum::new(LoaderChecksum::gen(X.source_bytes()))
         a = peel(c["args"][1])
@@ -412,7 +412,7 @@ def run(F, R, tier):
         st = t
         while st is not None and st.get("k") != "LetStmt":
             st = st.get("_p")
-        if not (st and st["pat"].get("name") == "checksum_for_locker"):
+        if not (st and tyc(F, st["pat"], "Option<source::LoaderChecksum>")):
             continue
         found = True
         flag = peel(t["recv"])
